@@ -34,6 +34,7 @@ def rules(ctx):
     C11.c116(ctx)   # per-level concatenation: seek/next/prev move on from an exhausted file
     C11.c117(ctx)   # per-level concatenation: an entered file is positioned by a seek of its own
     C11.c113(ctx)   # the merge: direction switches and seeks rebuild the heap under the right comparator
+    C11.c119(ctx)   # the merge: backward order is the exact reverse of forward order, ties on the user key included
     C11.c114(ctx)   # the pruning stage: timestamp filter, tombstones, skip_key screen and reset
     C06.c065(ctx)   # the timestamp a scan captures covers exactly the completely inserted batches
     from . import C05
